@@ -41,6 +41,12 @@ pub enum M {
     Map(Vec<(M, M)>),
     Struct(&'static str, Vec<(&'static str, M)>),
     StructVariant(&'static str, u32, &'static str, Vec<(&'static str, M)>),
+    /// a sequence / map / string handed over through the Serializer's provided methods collect_seq / collect_map / collect_str
+    /// (what `Serialize` impls of iterators, `Display`-serialized types such as chrono's DateTime, … call); the second field picks
+    /// the iterator's size_hint: 0 exact, 1 (0, Some(len)), 2 (0, None), 3 (0, Some(usize::MAX)), 4 (len, None)
+    CollectSeq(Vec<M>, u8),
+    CollectMap(Vec<(M, M)>, u8),
+    CollectStr(String),
     /// only as the value of a struct field: the field is skipped (`#[serde(skip_serializing_if = …)]` calls `skip_field`), so it is absent from the image
     Skipped,
     /// a value whose own Serialize implementation fails
@@ -56,7 +62,7 @@ pub fn kind(m: &M) -> &'static str {
         M::U64(_) => "u64", M::U128(_) => "u128", M::F32(_) => "f32", M::F64(_) => "f64", M::Char(_) => "char", M::Str(_) => "string", M::Bytes(_) => "bytes", M::None | M::Some(_) => "option",
         M::Unit => "unit", M::UnitStruct(_) => "unit_struct", M::UnitVariant(..) => "unit_variant", M::NewtypeStruct(..) => "newtype_struct", M::NewtypeVariant(..) => "newtype_variant",
         M::Seq(_) => "seq", M::Tuple(_) => "tuple", M::TupleStruct(..) => "tuple_struct", M::TupleVariant(..) => "tuple_variant", M::Map(_) => "map", M::Struct(..) => "struct",
-        M::StructVariant(..) => "struct_variant", M::Skipped => "skipped-field", M::Fail => "failing-serialize", M::HumanReadableProbe => "is_human_readable-probe",
+        M::StructVariant(..) => "struct_variant", M::Skipped => "skipped-field", M::CollectSeq(..) => "collect_seq", M::CollectMap(..) => "collect_map", M::CollectStr(_) => "collect_str", M::Fail => "failing-serialize", M::HumanReadableProbe => "is_human_readable-probe",
     }
 }
 
@@ -143,6 +149,9 @@ impl Serialize for M {
                 q.end()
             }
             M::Skipped => s.serialize_unit(),
+            M::CollectSeq(xs, h) => s.collect_seq(Hinted { it: xs.iter(), hint: hint_of(*h, xs.len()) }),
+            M::CollectMap(kvs, h) => s.collect_map(Hinted { it: kvs.iter().map(|(k, v)| (k, v)), hint: hint_of(*h, kvs.len()) }),
+            M::CollectStr(x) => s.collect_str(x),
             M::Fail => Err(serde::ser::Error::custom("this value refuses to be serialized")),
             M::HumanReadableProbe => {
                 if s.is_human_readable() {
@@ -152,6 +161,31 @@ impl Serialize for M {
                 }
             }
         }
+    }
+}
+
+fn hint_of(h: u8, len: usize) -> (usize, Option<usize>) {
+    match h {
+        0 => (len, Some(len)),
+        1 => (0, Some(len)),
+        2 => (0, None),
+        3 => (0, Some(usize::MAX)),
+        _ => (len, None),
+    }
+}
+
+/// an iterator with a chosen (legal) size_hint
+struct Hinted<I> {
+    it: I,
+    hint: (usize, Option<usize>),
+}
+impl<I: Iterator> Iterator for Hinted<I> {
+    type Item = I::Item;
+    fn next(&mut self) -> Option<I::Item> {
+        self.it.next()
+    }
+    fn size_hint(&self) -> (usize, Option<usize>) {
+        self.hint
     }
 }
 
@@ -232,15 +266,16 @@ pub fn image(m: &M) -> Image {
         M::UnitVariant(_, _, v) => Value::String(v.to_string()),
         M::NewtypeStruct(_, x) => sub!(x),
         M::NewtypeVariant(_, _, v, x) => one(v, sub!(x)),
-        M::Seq(xs) | M::Tuple(xs) | M::TupleStruct(_, xs) => match list(xs) {
+        M::Seq(xs) | M::Tuple(xs) | M::TupleStruct(_, xs) | M::CollectSeq(xs, _) => match list(xs) {
             Ok(v) => v,
             Err(e) => return e,
         },
+        M::CollectStr(x) => Value::String(x.clone()),
         M::TupleVariant(_, _, v, xs) => match list(xs) {
             Ok(l) => one(v, l),
             Err(e) => return e,
         },
-        M::Map(kvs) => {
+        M::Map(kvs) | M::CollectMap(kvs, _) => {
             let mut out = BTreeMap::new();
             let mut unsupported = false;
             for (k, v) in kvs {
@@ -306,8 +341,8 @@ fn json_representable(m: &M) -> bool {
         M::U128(x) => *x <= u64::MAX as u128,
         M::Fail => false,
         M::Some(x) | M::NewtypeStruct(_, x) | M::NewtypeVariant(_, _, _, x) => json_representable(x),
-        M::Seq(xs) | M::Tuple(xs) | M::TupleStruct(_, xs) | M::TupleVariant(_, _, _, xs) => xs.iter().all(json_representable),
-        M::Map(kvs) => {
+        M::Seq(xs) | M::Tuple(xs) | M::TupleStruct(_, xs) | M::TupleVariant(_, _, _, xs) | M::CollectSeq(xs, _) => xs.iter().all(json_representable),
+        M::Map(kvs) | M::CollectMap(kvs, _) => {
             // repeated keys are excluded: "keep every entry" is about distinct keys
             let mut seen = std::collections::BTreeSet::new();
             kvs.iter().all(|(k, v)| matches!(k, M::Str(s) if seen.insert(s.clone())) && json_representable(v))
@@ -340,8 +375,8 @@ fn has_fail(m: &M) -> bool {
     match m {
         M::Fail => true,
         M::Some(x) | M::NewtypeStruct(_, x) | M::NewtypeVariant(_, _, _, x) => has_fail(x),
-        M::Seq(xs) | M::Tuple(xs) | M::TupleStruct(_, xs) | M::TupleVariant(_, _, _, xs) => xs.iter().any(has_fail),
-        M::Map(kvs) => kvs.iter().any(|(k, v)| has_fail(k) || has_fail(v)),
+        M::Seq(xs) | M::Tuple(xs) | M::TupleStruct(_, xs) | M::TupleVariant(_, _, _, xs) | M::CollectSeq(xs, _) => xs.iter().any(has_fail),
+        M::Map(kvs) | M::CollectMap(kvs, _) => kvs.iter().any(|(k, v)| has_fail(k) || has_fail(v)),
         M::Struct(_, fs) | M::StructVariant(_, _, _, fs) => fs.iter().any(|(_, v)| has_fail(v)),
         _ => false,
     }
@@ -351,8 +386,8 @@ fn walk(m: &M, f: &mut impl FnMut(&M)) {
     f(m);
     match m {
         M::Some(x) | M::NewtypeStruct(_, x) | M::NewtypeVariant(_, _, _, x) => walk(x, f),
-        M::Seq(xs) | M::Tuple(xs) | M::TupleStruct(_, xs) | M::TupleVariant(_, _, _, xs) => xs.iter().for_each(|x| walk(x, f)),
-        M::Map(kvs) => kvs.iter().for_each(|(k, v)| {
+        M::Seq(xs) | M::Tuple(xs) | M::TupleStruct(_, xs) | M::TupleVariant(_, _, _, xs) | M::CollectSeq(xs, _) => xs.iter().for_each(|x| walk(x, f)),
+        M::Map(kvs) | M::CollectMap(kvs, _) => kvs.iter().for_each(|(k, v)| {
             walk(k, f);
             walk(v, f)
         }),
@@ -508,6 +543,9 @@ fn wrap_all(inner: &M) -> Vec<M> {
         M::Struct("Alpha", vec![(f[0], inner.clone())]),
         M::Struct("Alpha", vec![(f[3], M::Bool(false)), (f[1], inner.clone()), (f[4], M::Str("z".into()))]),
         M::StructVariant("E", 3, "δ", vec![(f[2], inner.clone()), (f[0], M::U8(9))]),
+        // through the provided collect_* methods with every kind of size hint
+        M::CollectSeq(vec![inner.clone(), M::U8(1)], 0), M::CollectSeq(vec![M::U8(1), inner.clone()], 1), M::CollectSeq(vec![inner.clone()], 2), M::CollectSeq(vec![inner.clone(), inner.clone()], 3), M::CollectSeq(vec![inner.clone()], 4),
+        M::CollectMap(vec![(M::Str("k".into()), inner.clone())], 3), M::CollectMap(vec![(M::Str("a".into()), M::U8(0)), (M::Str("k".into()), inner.clone())], 2),
         // next to skipped fields
         M::Struct("Alpha", vec![(f[5], M::Skipped), (f[1], inner.clone()), (f[4], M::Skipped)]),
         M::StructVariant("E", 3, "δ", vec![(f[2], inner.clone()), (f[0], M::Skipped)]),
@@ -515,6 +553,16 @@ fn wrap_all(inner: &M) -> Vec<M> {
         M::Map(vec![(inner.clone(), M::I8(1))]),
         M::Map(vec![(M::Str("first".into()), M::I8(0)), (inner.clone(), M::I8(1))]),
     ]
+}
+
+/// texts a Display-serialized type may produce: they stay strings whatever they look like
+fn collect_str_text(rng: &mut Rng) -> String {
+    match rng.below(4) {
+        0 => rng.pick(&["2020-01-02T12:00:00+02:00", "2020-01-02T10:00:00Z", "1970-01-01T00:00:00Z", "2015-06-30T23:59:60Z", "2020-01-02", "12:00:00", "P1D", "PT1S", "1s", "i1", "f1.5", "d1.0", "1", "-1", "1.5", "1e3", "true", "false", "none", "null", "", " ", "[1]", "{}", "\"q\"", "0x10", "NaN", "inf", "127.0.0.1", "::1", "550e8400-e29b-41d4-a716-446655440000"]).to_string(),
+        1 => match crate::pools::random_value(rng, "DateTime") { Value::DateTime(d) => d.to_rfc3339(), _ => String::new() },
+        2 => match crate::pools::random_value(rng, *rng.clone().pick(&["Int", "Float", "Decimal", "Bool", "Duration"])) { v => v.to_string() },
+        _ => match crate::pools::random_value(rng, "String") { Value::String(s) => s, _ => String::new() },
+    }
 }
 
 fn gen(rng: &mut Rng, depth: usize, sc: &[M]) -> M {
@@ -540,6 +588,14 @@ fn gen(rng: &mut Rng, depth: usize, sc: &[M]) -> M {
     let d = depth - 1;
     // mostly small containers, sometimes wide ones (more entries than any inline buffer would hold)
     let n = if rng.chance(1, 25) { 9 + rng.below(40) } else { rng.below(4) };
+    if rng.chance(1, 12) {
+        let h = rng.below(5) as u8;
+        return match rng.below(3) {
+            0 => M::CollectSeq((0..n).map(|_| gen(rng, d, sc)).collect(), h),
+            1 => M::CollectMap((0..n).map(|i| (M::Str(format!("{}{i}", FIELDS[rng.below(FIELDS.len())])), gen(rng, d, sc))).collect(), h),
+            _ => M::CollectStr(collect_str_text(rng)),
+        };
+    }
     let name = NAMES[rng.below(NAMES.len())];
     let var = NAMES[rng.below(NAMES.len())];
     let idx = rng.below(5) as u32;
@@ -644,6 +700,46 @@ mod derived_types {
         SecondOne { deep: Vec<Option<u16>> },
         Third,
     }
+    /// library types with their own Serialize impls (Display-based, struct-based, newtype-based, sequence-based)
+    #[derive(Serialize, Debug)]
+    pub struct Library {
+        pub offset_time: chrono::DateTime<chrono::FixedOffset>,
+        pub utc_time: chrono::DateTime<chrono::Utc>,
+        pub naive: chrono::NaiveDateTime,
+        pub date: chrono::NaiveDate,
+        pub time: chrono::NaiveTime,
+        pub ip: std::net::IpAddr,
+        pub socket: std::net::SocketAddr,
+        pub elapsed: std::time::Duration,
+        pub since_epoch: std::time::SystemTime,
+        pub path: std::path::PathBuf,
+        pub nonzero: std::num::NonZeroU16,
+        pub wrapping: std::num::Wrapping<i8>,
+        pub reverse: std::cmp::Reverse<u32>,
+        pub range: std::ops::Range<i16>,
+        pub inclusive: std::ops::RangeInclusive<u8>,
+        pub bound: std::ops::Bound<u8>,
+        pub cell: std::cell::Cell<u8>,
+        pub refcell: std::cell::RefCell<Vec<u8>>,
+        pub mutex: std::sync::Mutex<i32>,
+        pub set: std::collections::BTreeSet<i32>,
+        pub deque: std::collections::VecDeque<Option<bool>>,
+        pub heap: std::collections::BinaryHeap<u8>,
+        pub hash: std::collections::HashMap<String, u8>,
+        pub array: [i8; 3],
+        pub empty_array: [u8; 0],
+        pub one_tuple: (u8,),
+        pub result: Result<u8, String>,
+        pub unit_option: Option<()>,
+        pub nested_option: Option<Option<u8>>,
+        pub character: char,
+        pub boxed: Box<str>,
+        pub cow: std::borrow::Cow<'static, str>,
+        pub phantom: std::marker::PhantomData<u64>,
+        pub decimal: rust_decimal::Decimal,
+        pub cstring: std::ffi::CString,
+        pub int_keys: BTreeMap<String, BTreeMap<String, [u8; 2]>>,
+    }
     #[derive(Serialize, Clone, Debug)]
     pub struct Marker;
     #[derive(Serialize, Clone, Debug)]
@@ -687,6 +783,74 @@ fn derived(ctx: &mut Ctx) {
             Err(p2) => ctx.violation("C13 panic derived-type", format!("serialization panicked: {p2}"), json!({"value": clip(format!("{p:?}"), 600)})),
         }
     }
+    // library types
+    for _ in 0..ctx.tier.of(1_000, 10_000) {
+        use chrono::TimeZone;
+        let secs = rng.range(-2_000_000_000, 4_000_000_000);
+        let nanos = if rng.chance(1, 2) { 0 } else { rng.below(1_000_000_000) as u32 };
+        let utc = chrono::Utc.timestamp_opt(secs, nanos).unwrap();
+        let off = chrono::FixedOffset::east_opt(rng.range(-14 * 3600, 14 * 3600) as i32 / 60 * 60).unwrap();
+        let word = |rng: &mut Rng| match crate::pools::random_value(rng, "String") { Value::String(s) => s.replace('\0', ""), _ => String::new() };
+        let l = Library {
+            offset_time: utc.with_timezone(&off),
+            utc_time: utc,
+            naive: utc.naive_utc(),
+            date: utc.date_naive(),
+            time: utc.time(),
+            ip: if rng.chance(1, 2) { std::net::IpAddr::V4(std::net::Ipv4Addr::from(rng.next() as u32)) } else { std::net::IpAddr::V6(std::net::Ipv6Addr::from(rng.i128() as u128)) },
+            socket: std::net::SocketAddr::new(std::net::IpAddr::V4(std::net::Ipv4Addr::from(rng.next() as u32)), rng.next() as u16),
+            elapsed: std::time::Duration::new(rng.next() >> rng.below(64), rng.below(1_000_000_000) as u32),
+            since_epoch: std::time::UNIX_EPOCH + std::time::Duration::new(rng.below(4_000_000_000) as u64, rng.below(1_000_000_000) as u32),
+            path: std::path::PathBuf::from(format!("/tmp/{}", word(&mut rng))),
+            nonzero: std::num::NonZeroU16::new(1 + rng.below(65_535) as u16).unwrap(),
+            wrapping: std::num::Wrapping(rng.next() as i8),
+            reverse: std::cmp::Reverse(rng.next() as u32),
+            range: (rng.next() as i16)..(rng.next() as i16),
+            inclusive: (rng.next() as u8)..=(rng.next() as u8),
+            bound: match rng.below(3) { 0 => std::ops::Bound::Unbounded, 1 => std::ops::Bound::Included(rng.next() as u8), _ => std::ops::Bound::Excluded(rng.next() as u8) },
+            cell: std::cell::Cell::new(rng.next() as u8),
+            refcell: std::cell::RefCell::new((0..rng.below(4)).map(|_| rng.next() as u8).collect()),
+            mutex: std::sync::Mutex::new(rng.next() as i32),
+            set: (0..rng.below(5)).map(|_| rng.next() as i32).collect(),
+            deque: (0..rng.below(4)).map(|i| if i % 2 == 0 { None } else { Some(rng.chance(1, 2)) }).collect(),
+            heap: (0..rng.below(4)).map(|_| rng.next() as u8).collect(),
+            hash: (0..rng.below(2)).map(|_| (word(&mut rng), rng.next() as u8)).collect(),
+            array: [rng.next() as i8, 0, -1],
+            empty_array: [],
+            one_tuple: (rng.next() as u8,),
+            result: if rng.chance(1, 2) { Ok(rng.next() as u8) } else { Err(word(&mut rng)) },
+            unit_option: if rng.chance(1, 2) { Some(()) } else { None },
+            nested_option: match rng.below(3) { 0 => None, 1 => Some(None), _ => Some(Some(rng.next() as u8)) },
+            character: char::from_u32((rng.next() % 0x11_0000) as u32).unwrap_or('x'),
+            boxed: word(&mut rng).into_boxed_str(),
+            cow: std::borrow::Cow::Owned(word(&mut rng)),
+            phantom: std::marker::PhantomData,
+            decimal: match crate::pools::random_value(&mut rng, "Decimal") { Value::Decimal(d) => d, _ => rust_decimal::Decimal::ZERO },
+            cstring: std::ffi::CString::new(word(&mut rng).into_bytes()).unwrap_or_default(),
+            int_keys: (0..rng.below(3)).map(|i| (format!("k{i}"), (0..rng.below(3)).map(|j| (format!("{j}"), [i as u8, j as u8])).collect())).collect(),
+        };
+        ctx.begin(|| format!("library\t{l:?}"));
+        ctx.count();
+        ctx.hit("family:library-types-with-their-own-serialize");
+        ctx.nontrivial(fnv(format!("{l:?}").as_bytes()));
+        let j = serde_json::to_value(&l).expect("serde_json serializes the library types");
+        match guard(|| l.serialize(ValueSerializer)) {
+            Ok(Ok(g)) if same(&from_json(&j), &g) => {
+                ctx.hit("outcome:derived-type-coincides-with-serde_json");
+                ctx.sample("library", || json!({"value": clip(format!("{l:?}"), 400), "image": clip(format!("{g:?}"), 400)}));
+            }
+            Ok(Ok(g)) => {
+                // name the first field that differs
+                let field = match (&from_json(&j), &g) {
+                    (Value::Map(w), Value::Map(o)) => w.iter().find(|(k, v)| o.get(*k).map(|x| !same(x, v)).unwrap_or(true)).map(|(k, _)| k.clone()).or_else(|| o.keys().find(|k| !w.contains_key(*k)).cloned()).unwrap_or_default(),
+                    _ => "not a map".to_string(),
+                };
+                ctx.violation(format!("C13 differs-from-serde_json library-type field {field}"), "a library type's Serialize has an image that is not serde_json's".to_string(), json!({"value": clip(format!("{l:?}"), 800), "serde_json": clip(j.to_string(), 800), "observed": clip(format!("{g:?}"), 800)}))
+            }
+            Ok(Err(e)) => ctx.violation("C13 serializable-value-refused library-type", format!("serialization failed: {e}"), json!({"value": clip(format!("{l:?}"), 600)})),
+            Err(p2) => ctx.violation("C13 panic library-type", format!("serialization panicked: {p2}"), json!({"value": clip(format!("{l:?}"), 600)})),
+        }
+    }
     ctx.rng = rng;
 }
 
@@ -696,6 +860,9 @@ fn run(ctx: &mut Ctx) {
     let mut leaves = sc.clone();
     leaves.push(M::Fail);
     leaves.push(M::HumanReadableProbe);
+    for t in ["2020-01-02T12:00:00+02:00", "2020-01-02T10:00:00Z", "2015-06-30T23:59:60Z", "1", "1.5", "true", "none", "", "i1", "PT1S"] {
+        leaves.push(M::CollectStr(t.to_string()));
+    }
     for s in &leaves {
         if ctx.mine() {
             judge(ctx, s, "scalar");
@@ -756,7 +923,7 @@ fn run(ctx: &mut Ctx) {
         // ten levels of nesting through every wrapper kind
         let mut deep = M::I128(i64::MAX as i128 + 12_345);
         for i in 0..12 {
-            deep = wrap_all(&deep).swap_remove(i % 15);
+            deep = wrap_all(&deep).swap_remove(i % 22);
         }
         judge(ctx, &deep, "deep-nesting");
     }
@@ -793,7 +960,7 @@ fn finish(m: &Merged, tier: Tier) -> Finish {
         exhaustive_part: "scalar x wrapper (x wrapper) products are complete".into(),
         ..Default::default()
     };
-    f.floors.push(floor(format!("serde data-model kinds exercised: {kinds}/31 (29 kinds + failing Serialize + skipped struct field)"), kinds >= 31));
+    f.floors.push(floor(format!("serde data-model kinds exercised: {kinds}/34 (29 kinds + failing Serialize + skipped struct field + collect_seq / collect_map / collect_str)"), kinds >= 34));
     f.floors.push(floor(format!("derived types compared with serde_json: {}", m.c("outcome:derived-type-coincides-with-serde_json")), m.c("outcome:derived-type-coincides-with-serde_json") >= tier.of(1_000, 10_000)));
     f.floors.push(floor(format!("faithful images: {}", m.c("outcome:faithful")), m.c("outcome:faithful") >= tier.of(100_000, 1_000_000)));
     f.floors.push(floor(format!("compared with serde_json: {}", m.c("outcome:compared-with-serde_json")), m.c("outcome:compared-with-serde_json") >= tier.of(5_000, 50_000)));
